@@ -22,6 +22,21 @@ template<class E> constexpr bool is_tracked = std::is_base_of_v<Tracked, E>;
 template<class E> int moved_value(int v) { return (is_tracked<E> && !std::is_same_v<E, CopyOnly>) ? MOVED : v; }
 static uint32_t mk(uint32_t k, uint32_t a, uint32_t v = 0) { return k | a << 8 | v << 12; }
 
+// An element with an observable use count, like shared_ptr::use_count(): every live element of value v counts once in
+// Counted::uses[v].  A holder that runs a destructor its standard counterpart does not run (on an element that is already
+// dead, or on storage that never held one) makes the count differ from std::optional<shared_ptr>'s, which the state oracle
+// compares.  Copy-only (a move copies), values 1 and 2.
+struct Counted {
+	static inline int uses[4] = {0, 0, 0, 0};
+	static inline bool bad_destroy = false;
+	int v;
+	Counted(int x) : v(x) { uses[v & 3]++; }
+	Counted(const Counted &o) : v(o.v) { uses[v & 3]++; }
+	Counted &operator=(const Counted &o) { uses[v & 3]--; v = o.v; uses[v & 3]++; return *this; }
+	~Counted() { if(v < 1 || v > 2) bad_destroy = true; else uses[v]--; }    // (leaves v in place: a second destructor counts again)
+};
+inline int val(const Counted &c) { return c.v; }
+
 // ------------------------------------------------------------------------------------------
 template<class E, bool Copyable, bool Conv>
 struct OptHarness : HarnessBase {
@@ -31,9 +46,9 @@ struct OptHarness : HarnessBase {
 	struct M { bool on = false; int v = 0; bool operator==(const M &) const = default; } ref[2];
 	const char *name;
 	OptHarness(const char *n) : name(n) {}
-	const char *prop() const { return "C17"; }
+	const char *prop() const { return wanted_prop() == "C16" ? "C16" : "C17"; }   // C16 runs this harness too: a crash, sanitizer report or assertion then counts for it
 	O &s(int a) { return *reinterpret_cast<O *>(store[a]); }
-	void reset() { world_reset(); for(int a = 0; a < 2; a++) { memset(store[a], 0xA5, sizeof(O)); new(store[a]) O; alive[a] = true; ref[a] = M{}; } }
+	void reset() { world_reset(); if constexpr(std::is_same_v<E, Counted>) { for(int &u : Counted::uses) u = 0; Counted::bad_destroy = false; } for(int a = 0; a < 2; a++) { memset(store[a], 0xA5, sizeof(O)); new(store[a]) O; alive[a] = true; ref[a] = M{}; } }
 	enum { C_DEFAULT, C_NULLOPT, C_CREF, C_RVAL, C_CONV, C_COPY, C_MOVE, A_COPY, A_MOVE, A_SELF, A_NULLOPT, A_VALUE, A_CONV_C, A_CONV_M, EMPLACE, MUTATE, NK };
 	void ops(std::vector<uint32_t> &out) {
 		for(uint32_t a = 0; a < 2; a++) {
@@ -94,6 +109,13 @@ struct OptHarness : HarnessBase {
 				if constexpr(std::is_same_v<E, int>) { if((x == 1) || !(x != 1) || !(x < 1)) throw Violation{"C17", N + ":compare-empty", "comparison operators on an empty optional"}; }
 			}
 		}
+		if constexpr(std::is_same_v<E, Counted>) {
+			if(Counted::bad_destroy) throw Violation{"C17", std::string(name) + ":use-count", "an element destructor ran on storage that does not hold an element (the standard type runs none there)"};
+			for(int v = 1; v <= 2; v++) {
+				int want = 0; for(int a = 0; a < 2; a++) if(ref[a].on && ref[a].v == v) want++;
+				if(Counted::uses[v] != want) throw Violation{"C17", std::string(name) + ":use-count", "use count of value " + std::to_string(v) + " is " + std::to_string(Counted::uses[v]) + ", with the standard type it is " + std::to_string(want) + " (an element was destroyed twice, or not at all)"};
+			}
+		}
 		if(res) res->outcomes.insert(std::string(ref[0].on ? "on" : "off") + "/" + (ref[1].on ? "on" : "off"));
 	}
 	void final_check() { for(int a = 0; a < 2; a++) if(alive[a]) { s(a).~O(); alive[a] = false; } raise_pending(); world_check_empty(name); }
@@ -111,7 +133,7 @@ struct ExpHarness : HarnessBase {
 	struct M { int err = 0; int v = 0; } ref[2];
 	const char *name;
 	ExpHarness(const char *n) : name(n) {}
-	const char *prop() const { return "C17"; }
+	const char *prop() const { return wanted_prop() == "C16" ? "C16" : "C17"; }   // C16 runs this harness too: a crash, sanitizer report or assertion then counts for it
 	X &s(int a) { return *reinterpret_cast<X *>(store[a]); }
 	void reset() { world_reset(); for(int a = 0; a < 2; a++) { memset(store[a], 0xA5, sizeof(X)); new(store[a]) X; alive[a] = true; ref[a] = M{}; } }
 	enum { C_DEFAULT, C_SUCCESS, C_ERR, C_VAL, C_COPY, C_MOVE, A_COPY, A_MOVE, A_ERR, A_VAL, UNWRAP, MAP, MAP_ERR, A_SELF_COPY, A_ALIAS_COPY };
@@ -193,7 +215,7 @@ struct VarHarness : HarnessBase {
 	alignas(64) unsigned char store[2][sizeof(V)];
 	bool alive[2] = {false, false};
 	struct M { int tag = -1; int v = 0; } ref[2];
-	const char *prop() const { return "C17"; }
+	const char *prop() const { return wanted_prop() == "C16" ? "C16" : "C17"; }   // C16 runs this harness too: a crash, sanitizer report or assertion then counts for it
 	V &s(int a) { return *reinterpret_cast<V *>(store[a]); }
 	void reset() { world_reset(); for(int a = 0; a < 2; a++) { memset(store[a], 0xA5, sizeof(V)); new(store[a]) V; alive[a] = true; ref[a] = M{}; } }
 	enum { C_DEFAULT, C_ALT, C_COPY, C_MOVE, A_COPY, A_MOVE, A_SELF, A_ALT, A_EMPTY, EMPLACE, MUTATE };
@@ -267,7 +289,7 @@ struct BoxHarness : HarnessBase {
 	using B = frg::manual_box<Tracked>;
 	alignas(16) unsigned char store[2][sizeof(B)];
 	struct M { bool on = false; int v = 0; } ref[2];
-	const char *prop() const { return "C17"; }
+	const char *prop() const { return wanted_prop() == "C16" ? "C16" : "C17"; }   // C16 runs this harness too: a crash, sanitizer report or assertion then counts for it
 	B &s(int a) { return *reinterpret_cast<B *>(store[a]); }
 	void reset() { world_reset(); for(int a = 0; a < 2; a++) { memset(store[a], 0xff, sizeof(B)); new(store[a]) B(); ref[a] = M{}; } }
 	enum { INIT, CONSTRUCT_WITH, DESTRUCT, MUTATE };
@@ -512,6 +534,7 @@ static std::vector<Instance> instances(const std::string &) {
 	v.push_back(bfs_instance<OptHarness<Tracked, true, true>>("optional-tracked", BfsOptions{}, "optional<Tracked>"));
 	v.push_back(bfs_instance<OptHarness<MoveOnly, false, false>>("optional-moveonly", BfsOptions{}, "optional<MoveOnly>"));
 	v.push_back(bfs_instance<OptHarness<CopyOnly, true, false>>("optional-copyonly", BfsOptions{}, "optional<CopyOnly>"));
+	v.push_back(bfs_instance<OptHarness<Counted, true, false>>("optional-use-counted", BfsOptions{}, "optional<Counted>"));
 	v.push_back(bfs_instance<ExpHarness<Tracked>>("expected-tracked", BfsOptions{}, "expected<Err,Tracked>"));
 	v.push_back(bfs_instance<ExpHarness<int>>("expected-int", BfsOptions{}, "expected<Err,int>"));
 	v.push_back(bfs_instance<VarHarness<Tracked, TrackedB, int>>("variant", BfsOptions{}, "variant"));
